@@ -188,6 +188,7 @@ class Model(object):
         self.consulted = set()
         self.renamed = {}
         self.inlined = {}
+        self.absorbed = set()
         if not os.path.isdir(self.pkgdir):
             raise AnalysisError("package directory missing: %s" % self.pkgdir)
         self._load()
